@@ -19,8 +19,8 @@ func setNoWait(ops ...refmodel.Op) engine.Step {
 	return engine.Step{Kind: "set", Ops: ops, NoWait: true}
 }
 func env(kind, t string) engine.Step { return engine.Step{Kind: kind, Target: t} }
-func rbLatest() engine.Step         { return engine.Step{Kind: "rollback", RbMode: "latest"} }
-func rbIndex(i int) engine.Step     { return engine.Step{Kind: "rollback", RbMode: "index", RbArg: i} }
+func rbLatest() engine.Step          { return engine.Step{Kind: "rollback", RbMode: "latest"} }
+func rbIndex(i int) engine.Step      { return engine.Step{Kind: "rollback", RbMode: "index", RbArg: i} }
 
 // Witness is a hand-written scenario that every run of the checks listed in Props replays first.
 // Each one is the concrete history with which a defect of the unchanged tree was demonstrated
